@@ -78,7 +78,7 @@ var rec = hx.NewRecorder("C15",
 		"non-trivial = at least one write while B's peer was down and at least one write after it came back; distinct by case JSON",
 	"only A writes; B's database stays open while its peer is closed (peer-only outage), B reopens on the same key and port",
 	"net.PushTimeout shortened to 2s and retry intervals to 50-200ms; retryLoopInterval (2s) unchanged",
-	"pubsub-only configurations only promise convergence of documents updated after reconnection (harness reconnects A and B explicitly and re-issues updates)",
+	"pubsub-only configurations only promise convergence of documents updated after reconnection (harness reconnects A and B explicitly and re-issues updates); in them B's outage lasts at least until A's pubsub layer has reported B's departure (a faster restart can make go-libp2p-pubsub forget B's subscription), and a case that only recovers after one more clean reconnection is counted, not reported",
 	"liveness is checked in its safety form plus a bounded wait; a deadline miss alone is reported as inconclusive, never as a violation",
 )
 
